@@ -135,6 +135,52 @@ Proof.
   rewrite (build_fragment span_types_markdown true _ true eq_refl eq_refl eq_refl (footnotes_of_fragment true t 1) f t 1 ltac:(lia) Hw). reflexivity.
 Qed.
 
+(* ---- a whole document: a sequence of blocks separated by blank lines ---- *)
+Definition seq_depth (ts : list ftree) : nat := fold_right (fun t m => Nat.max (depth t) m) 0%nat ts.
+
+Theorem fuel_suffices_seq ts : ts <> [] -> forallb wf_b ts = true -> (S (seq_depth ts) <= depth_fuel (text_of (join_blank (map spell ts))))%nat.
+Proof.
+  intros Hne Hall. destruct (deepest_child ts Hne) as (t & Hin & E). unfold seq_depth. rewrite E.
+  rewrite forallb_forall in Hall. destruct (deep_line (depth t) t (le_n _) (Hall t Hin)) as (l & Hl & Wl).
+  assert (Hj : In l (join_blank (map spell ts))) by (eapply in_join_blank; [apply in_map; exact Hin|exact Hl]).
+  unfold depth_fuel. pose proof (longest_ge (text_of (join_blank (map spell ts))) (render_line l) (in_map _ _ _ Hj) 0%nat) as G.
+  rewrite weight_length in G by lia. lia.
+Qed.
+
+Lemma seq_depth_all ts f : (seq_depth ts <= f)%nat -> Forall (fun t => (depth t <= f)%nat) ts.
+Proof.
+  unfold seq_depth. induction ts as [|t r IH]; intros H; [constructor|]. cbn [fold_right] in H. constructor; [lia|apply IH; lia].
+Qed.
+
+Theorem fragment_seq_document cfg ts :
+  fragment_config (cfg_block cfg) = true -> prose_spans (cfg_span cfg) = true -> emph_spans (cfg_span cfg) = true ->
+  inert_spans (cfg_span cfg) = true -> seq_ok_b ts = true -> forallb wf_b ts = true ->
+  fst (fst (parse_lines cfg (text_of (join_blank (map spell ts))))) = Document (tok_seq false ts).
+Proof.
+  intros Hc Hq He Hi Hs Hw.
+  assert (Hne : ts <> []) by (destruct ts; [discriminate|discriminate]).
+  pose proof (fuel_suffices_seq ts Hne Hw) as Hf.
+  unfold parse_lines, block_phase.
+  destruct (depth_fuel (text_of (join_blank (map spell ts)))) as [|f] eqn:Ef; [lia|].
+  rewrite (fragment_seq_cfg (cfg_block cfg) ts f 1 (mkPs true) Hc Hs Hw (seq_depth_all ts f ltac:(lia))). cbn [fst].
+  unfold Build.make_tokens.
+  rewrite (build_seq (cfg_span cfg) (cfg_keep_defs cfg) _ false Hq He Hi (footnotes_of_seq false ts 1) ts 1 Hw). reflexivity.
+Qed.
+
+Theorem fragment_seq_document_markdown ts :
+  seq_ok_b ts = true -> forallb wf_b ts = true ->
+  fst (fst (parse_lines cfg_markdown (text_of (join_blank (map spell ts))))) = Document (tok_seq true ts).
+Proof.
+  intros Hs Hw.
+  assert (Hne : ts <> []) by (destruct ts; [discriminate|discriminate]).
+  pose proof (fuel_suffices_seq ts Hne Hw) as Hf.
+  unfold parse_lines, block_phase. cbn [cfg_block cfg_span cfg_keep_defs cfg_markdown].
+  destruct (depth_fuel (text_of (join_blank (map spell ts)))) as [|f] eqn:Ef; [lia|].
+  rewrite (fragment_seq_markdown ts f 1 (mkPs true) Hs Hw (seq_depth_all ts f ltac:(lia))). cbn [fst].
+  unfold Build.make_tokens.
+  rewrite (build_seq span_types_markdown true _ true eq_refl eq_refl eq_refl (footnotes_of_seq true ts 1) ts 1 Hw). reflexivity.
+Qed.
+
 Lemma document_configs :
   forallb (fun c => fragment_config (cfg_block c) && prose_spans (cfg_span c) && emph_spans (cfg_span c) && inert_spans (cfg_span c))
           [cfg_html; cfg_html_nohtml; cfg_latex; cfg_mathjax; cfg_default] = true.
